@@ -1132,6 +1132,17 @@ func (l *Ledger) Truncate(utxovmLastID []byte) error {
 		}
 	}
 
+	// 裁剪后目标区块成为主干末端, 它的next_hash不能再指向已经被删除的区块
+	tipBlock := proto.Clone(block).(*pb.InternalBlock)
+	tipBlock.NextHash = []byte{}
+	tipBlock.Transactions = nil // block表不保存transaction详情
+	tipBlockBuf, err := proto.Marshal(tipBlock)
+	if err != nil {
+		l.xlog.Warn("failed to marshal tip block")
+		return err
+	}
+	batchWrite.Put(append([]byte(pb.BlocksTablePrefix), tipBlock.Blockid...), tipBlockBuf)
+
 	newMeta.TrunkHeight = block.Height
 	metaBuf, err := proto.Marshal(newMeta)
 	if err != nil {
@@ -1145,6 +1156,8 @@ func (l *Ledger) Truncate(utxovmLastID []byte) error {
 		return err
 	}
 	l.meta = newMeta
+	l.blkHeaderCache.Del(string(tipBlock.Blockid))
+	l.blockCache.Del(string(tipBlock.Blockid))
 
 	l.xlog.Info("truncate blockid succeed")
 	return nil
